@@ -131,6 +131,10 @@ impl<'a> RtcpPacketWriter for UnknownBuilder<'a> {
 
         check_padding(self.padding)?;
 
+        if self.data.len() % 4 != 0 {
+            return Err(RtcpWriteError::DataLen32bitMultiple(self.data.len()));
+        }
+
         Ok(Unknown::MIN_PACKET_LEN + self.data.len() + self.padding as usize)
     }
 
